@@ -180,3 +180,32 @@ package config
 //@   loop 1 invariant forall i int :: 0 <= i && i < iter ==> disabledChecks[i] != name && disabledChecks[i] != check.String()
 //@   loop 3 invariant 0 <= iter && iter <= len(enabledChecks)
 //@   loop 3 invariant forall i int :: 0 <= i && i < iter ==> enabledChecks[i] != name
+
+// The per-entry decision for one registered check: the state gate, file-level disables, every matching rule {} block
+// (a disable in any matching block wins, otherwise an enable in some matching block wins over the global lists),
+// then the global lists. No rule {} block is skipped before the check is enabled.
+//@ func parsedRule.isEnabled [C08]
+//@   ghost statesOK bool
+//@   ghost gate bool
+//@   ghost blocks int
+//@   ghost sawDisable bool
+//@   ghost sawEnable bool
+//@   ghost gate2 bool
+//@   after call Contains#1 set statesOK = result0
+//@   after call isEnabled#1 set gate = result0
+//@   after call isMatch set blocks = blocks + 1
+//@   after call Contains#2 set sawDisable = sawDisable || result0
+//@   after call Contains#3 set sawEnable = sawEnable || result0
+//@   after call isEnabled#2 set gate2 = result0
+//@   at call isEnabled#1 assert arg3 == rule.name && arg4 == rule.check && arg0 == enabled && arg1 == e.DisabledChecks && arg6 == locked
+//@   at call isEnabled#2 assert arg3 == rule.name && arg4 == rule.check && arg0 == enabled && arg1 == disabled && arg6 == locked
+//@   at call Contains#2 assert arg1 == rule.name && arg0 == cfgRule.Disable
+//@   at call Contains#3 assert arg1 == rule.name && arg0 == cfgRule.Enable
+//@   at call isMatch assert arg1 == e && arg2 == cfgRule.Ignore && arg3 == cfgRule.Match && cfgRule == old(cfgRules)[iter-1]
+//@   loop 1 invariant 0 <= iter && iter <= len(cfgRules) && blocks == iter && statesOK && gate && !sawDisable && (enabledByConfigRule <==> sawEnable)
+//@   ensures !statesOK ==> !result
+//@   ensures statesOK && !gate ==> !result
+//@   ensures sawDisable ==> !result
+//@   ensures result ==> blocks == len(cfgRules)
+//@   ensures statesOK && gate && !sawDisable && sawEnable && blocks == len(cfgRules) ==> result
+//@   ensures statesOK && gate && !sawDisable && !sawEnable ==> (result ==> gate2)
